@@ -485,58 +485,94 @@ func definitelyNonEmptySlice(v ssa.Value, at *ssa.BasicBlock) bool {
 
 func ruleTypePost(c *Ctx) []Obligation {
 	const R = "TYPE.POST"
-	fn := c.Fn("yang.(*Type).resolve")
-	tT := c.Named("yang", "Type")
-	if fn == nil || tT == nil {
-		return []Obligation{undecided(R, "type resolver", "-", "(*Type).resolve not found")}
-	}
-	fYT := FieldVar(tT, "YangType")
-	var stores []*ssa.Store
-	for _, st := range storesToField(fn, fYT) {
-		_, _, base := fieldOf(st.Addr)
-		if isParamN(fn, base, 0) && !isNilConst(st.Val) {
-			stores = append(stores, st)
-		}
-	}
 	var obs []Obligation
-	n := 0
-	for _, b := range fn.Blocks {
-		r, isR := b.Instrs[len(b.Instrs)-1].(*ssa.Return)
-		if !isR || len(r.Results) != 1 || b == fn.Recover {
-			continue // the recover block only runs after a panic, which this rule does not model
-		}
-		v := resolveSpill(r.Results[0], r)
-		if definitelyNonEmptySlice(v, b) {
+	for _, site := range []struct{ fn, owner string }{
+		{"yang.(*Type).resolve", "Type"},
+		{"yang.(*Typedef).resolve", "Typedef"},
+	} {
+		fn := c.Fn(site.fn)
+		tT := c.Named("yang", site.owner)
+		if fn == nil || tT == nil {
+			obs = append(obs, undecided(R, site.owner+" resolver", "-", site.fn+" not found"))
 			continue
 		}
-		n++
-		con := fmt.Sprintf("%s: a return that may carry no error happens only with the resolved type stored", c.FnName(fn))
-		if n > 1 {
-			con = fmt.Sprintf("%s #%d", con, n)
-		}
-		set := false
-		for _, st := range stores {
-			if dominates(st, r) {
-				set = true
+		fYT := FieldVar(tT, "YangType")
+		fParent := FieldVar(tT, "Parent")
+		var stores []*ssa.Store
+		for _, st := range storesToField(fn, fYT) {
+			_, _, base := fieldOf(st.Addr)
+			if isParamN(fn, base, 0) && !isNilConst(st.Val) {
+				stores = append(stores, st)
 			}
 		}
-		if !set {
-			for _, g := range guardsAt(b) {
-				if x, isEq, isT := nilTest(g.Cond); isT && isEq != g.Branch {
-					if _, f, base := loadedField(x); f == fYT && isParamN(fn, base, 0) {
-						set = true
-					}
+		// evidence on a set of guards that the receiver is resolved: its memo is non-nil, or (typedefs) it has no
+		// parent statement, i.e. it is one of the built-in typedefs, which are made with their type
+		resolved := func(gs []Guard) bool {
+			for _, g := range gs {
+				x, isEq, isT := nilTest(g.Cond)
+				if !isT {
+					continue
+				}
+				_, f, base := loadedField(x)
+				if !isParamN(fn, base, 0) && !isParamN(fn, resolveArg(rootOf(base)), 0) {
+					continue
+				}
+				if f == fYT && isEq != g.Branch {
+					return true
+				}
+				if site.owner == "Typedef" && f == fParent && fParent != nil && isEq == g.Branch {
+					return true
 				}
 			}
+			return false
 		}
-		if set {
-			obs = append(obs, ok(R, con, c.InstrPos(r), "dominated by t.YangType = … or by the test t.YangType != nil"))
-		} else {
-			obs = append(obs, bad(R, con, c.InstrPos(r), "the error list returned here can be empty although t.YangType was not stored on this path: Typedef.resolve and the entry converter dereference the resolved type whenever no error came back (nil dereference while processing)"))
+		n := 0
+		for _, b := range fn.Blocks {
+			r, isR := b.Instrs[len(b.Instrs)-1].(*ssa.Return)
+			if !isR || len(r.Results) != 1 || b == fn.Recover {
+				continue // the recover block only runs after a panic, which this rule does not model
+			}
+			v := resolveSpill(r.Results[0], r)
+			if definitelyNonEmptySlice(v, b) {
+				continue
+			}
+			n++
+			con := fmt.Sprintf("%s: a return that may carry no error happens only with the resolved type stored", c.FnName(fn))
+			if n > 1 {
+				con = fmt.Sprintf("%s #%d", con, n)
+			}
+			set := false
+			for _, st := range stores {
+				if dominates(st, r) {
+					set = true
+				}
+			}
+			if !set && resolved(guardsAt(b)) {
+				set = true
+			}
+			if !set && len(b.Preds) > 1 {
+				// `if a || b { return nil }`: every way into the return carries its own evidence
+				all := true
+				for _, p := range b.Preds {
+					gs := guardsAt(p)
+					if ifi, isIf := p.Instrs[len(p.Instrs)-1].(*ssa.If); isIf && p.Succs[0] != p.Succs[1] {
+						gs = append(gs, Guard{Cond: ifi.Cond, Branch: p.Succs[0] == b, If: ifi})
+					}
+					if !resolved(gs) {
+						all = false
+					}
+				}
+				set = all
+			}
+			if set {
+				obs = append(obs, ok(R, con, c.InstrPos(r), "dominated by t.YangType = …, or reached only where t.YangType != nil (or, for a typedef, where it is a built-in)"))
+			} else {
+				obs = append(obs, bad(R, con, c.InstrPos(r), "the error list returned here can be empty although t.YangType was not stored on this path: the callers dereference the resolved type whenever no error came back (nil dereference while processing)"))
+			}
 		}
-	}
-	if n == 0 {
-		obs = append(obs, undecided(R, "type resolver returns", c.Pos(fn.Pos()), "no return that may carry an empty list found"))
+		if n == 0 {
+			obs = append(obs, undecided(R, site.owner+" resolver returns", c.Pos(fn.Pos()), "no return that may carry an empty list found"))
+		}
 	}
 	return obs
 }
